@@ -2414,6 +2414,9 @@ func decodeVLANCounters(data *[]byte) (SFlowVLANCounters, error) {
 	vc := SFlowVLANCounters{}
 	var cdf SFlowCounterDataFormat
 
+	if len(*data) < 36 {
+		return vc, errors.New("VLAN counters too small")
+	}
 	*data, cdf = (*data)[4:], SFlowCounterDataFormat(binary.BigEndian.Uint32((*data)[:4]))
 	vc.EnterpriseID, vc.Format = cdf.decode()
 	vc.EnterpriseID, vc.Format = cdf.decode()
